@@ -295,6 +295,15 @@ class Ctx:
         self.coverage["evaluations"] += n
         self.coverage["distinct_nontrivial"] += nontrivial
 
+    def dist(self, name, value):
+        """input distribution, printed into the evidence: how often a generated input had this size / kind / outcome"""
+        d = self.notes.setdefault("input_distribution", {}).setdefault(name, {})
+        d[str(value)] = d.get(str(value), 0) + 1
+
+    @staticmethod
+    def bucket(n):
+        return str(n) if n <= 3 else "4-7" if n <= 7 else "8-15" if n <= 15 else "16-31" if n <= 31 else "32+"
+
     def sample(self, x, cap=6):
         if len(self.coverage["samples"]) < cap:
             self.coverage["samples"].append(x)
@@ -325,6 +334,7 @@ def prepare(ctx, gens, targets):
         if st.get(g):
             ctx.broke(f"translation {g} (tie T) failed", st[g])
     ctx.notes["gen_status"] = {k: ("ok" if v is None else "FAILED") for k, v in st.items()}
+    targets = list(targets) + ["Corr/Sound.vo"]   # the comparison functions of the correspondence are proved sound on every run
     ok, log = coq_make(targets, clean=(ctx.tier == "thorough" and os.environ.get("VERIF_NO_CLEAN") != "1"))
     if not ok:
         errs = re.findall(r'File "([^"]+)", line (\d+)[^\n]*\n(?:[^\n]*\n){0,12}?Error:[^\n]*(?:\n[^\n]*){0,6}', log)
@@ -409,7 +419,7 @@ def finish(ctx, assumptions=(), level="proof"):
         "Coq 8.16.1 kernel incl. vm_compute (no native_compute); coqchk -o in the thorough tier",
         "axioms per theorem (Print Assumptions): " + ("; ".join(f"{a['theorem']}: {', '.join(a['axioms']) or 'closed under the global context'}" for a in ctx.assumptions) or "n/a"),
         "vlib/translate.py + vlib/py2coq.py (tie T; validated on every run against the Python functions on their finite/dense domains)",
-        "correspondence harness vlib/* (generators, Gallina printer, observation canonicalisation, coqc output parsing); no extraction",
+        "correspondence harness vlib/* (generators, Gallina printer, observation canonicalisation, coqc output parsing); the comparison functions and the case runner are proved sound (Corr/Sound.v and the Corr/*.v files); no extraction",
     ] + list(ctx.trusted)
     cov["assumptions_per_theorem"] = ctx.assumptions
     cov["broken"] = ctx.broken
